@@ -122,6 +122,14 @@ fn scalars() -> Vec<Scalar> {
     for i in [31usize, 32, 63, 64, 95, 96, 127, 128, 159, 160, 191, 192, 223, 224, 254] {
         push(bit(i), &format!("bit{}", i));
     }
+    // just above a 64-bit limb boundary, and sparse scalars with gaps of more than 64 zero bits
+    for i in [65usize, 66, 68, 129, 130, 194] {
+        push(bit(i), &format!("bit{}", i));
+    }
+    push(bits(&[0, 66]), "bits0+66");
+    push(bits(&[0, 1, 67]), "bits0+1+67");
+    push(bits(&[0, 67, 133, 200]), "bits0+67+133+200");
+    push(bits(&[2, 70, 139, 209]), "bits2+70+139+209");
     for (a, b) in [(63usize, 64usize), (127, 128), (191, 192), (31, 32), (95, 96), (159, 160), (223, 224)] {
         push(bits(&[a, b]), &format!("bits{}+{}", a, b));
     }
